@@ -38,6 +38,36 @@ fn bases() -> &'static Vec<Base> {
             let enc = S::encode(&m, &S::EncOpts::default());
             v.push(Base { name: format!("generated#{}", i), bytes: enc.out, offsets: enc.offsets });
         }
+        // one stream in which every element kind carries every optional record (a PATHTYPE 4 path with both
+        // extensions, a text with presentation / path type / width / transform, transformed references, properties)
+        {
+            let c = MCommon { elflags: Some((0, 1)), plex: Some(7), props: vec![(1, "a".into()), (2, "bc".into())] };
+            let tr = Some(crate::gen::gds::MStrans { reflected: true, abs_mag: false, abs_angle: false, mag: Some(2.0f64.to_bits()), angle: Some(90.0f64.to_bits()) });
+            let d = [1i16; 12];
+            let m = MLib {
+                name: "all".into(),
+                version: 600,
+                dates: d,
+                units: (1e-3f64.to_bits(), 1e-9f64.to_bits()),
+                structs: vec![
+                    MStruct { name: "leaf".into(), dates: d, elems: vec![MElem::Boundary { layer: 1, datatype: 2, xy: vec![(0, 0), (4, 0), (4, 4), (0, 0)], c: c.clone() }] },
+                    MStruct {
+                        name: "top".into(),
+                        dates: d,
+                        elems: vec![
+                            MElem::Path { layer: 3, datatype: 4, xy: vec![(0, 0), (10, 0), (10, 10)], path_type: Some(4), width: Some(6), begin_extn: Some(3), end_extn: Some(5), c: c.clone() },
+                            MElem::Text { string: "lbl".into(), layer: 5, texttype: 6, xy: (1, 2), presentation: Some((0, 5)), path_type: Some(1), width: Some(-4), strans: tr.clone(), c: c.clone() },
+                            MElem::Sref { name: "leaf".into(), xy: (7, 8), strans: tr.clone(), c: c.clone() },
+                            MElem::Aref { name: "leaf".into(), xy: [(0, 0), (20, 0), (0, 30)], cols: 2, rows: 3, strans: tr.clone(), c: c.clone() },
+                            MElem::Node { layer: 7, nodetype: 8, xy: vec![(1, 1), (2, 2)], c: c.clone() },
+                            MElem::Box { layer: 9, boxtype: 10, xy: [(0, 0), (1, 0), (1, 1), (0, 1), (0, 0)], c: c.clone() },
+                        ],
+                    },
+                ],
+            };
+            let enc = S::encode(&m, &S::EncOpts::default());
+            v.push(Base { name: "generated-every-optional-record".to_string(), bytes: enc.out, offsets: enc.offsets });
+        }
         // one stream with a large (but legal) record: a boundary of 4100 points, whose XY record
         // alone is 32 KB, so that doubling it goes beyond what one record can hold
         {
